@@ -101,6 +101,8 @@ def c_expander(c, n, i):
     ex = ForeachRefExpander({idx})
     r = ex.expand(ExprFieldRefModel(idx))
     c.check("the index variable is replaced by a literal of its current value", isinstance(r, ExprLiteralModel) and int(r.val()) == i)
+    c.check("that literal behaves like the Python integer it stands for (R-EXPR: signed, at least 32 bits), so comparing or "
+            "combining it with a signed element stays signed", isinstance(r, ExprLiteralModel) and r.is_signed() is True and r.width() >= 32)
     r = ex.expand(ExprArraySubscriptModel(ExprFieldRefModel(arr), ExprFieldRefModel(idx)))
     c.check("list[index] is replaced by a reference to exactly element field_l[index]", isinstance(r, ExprFieldRefModel) and r.fm is arr.field_l[i])
     c.check("an expression that does not mention the index is left alone", ex.expand(ExprFieldRefModel(other)) is None)
